@@ -162,9 +162,9 @@ def case_judges(exe):
     wd = workdir("selftest-e3")
     # C18: flip one byte of one recorded write
     kpath = os.path.join(wd, "keys.ndjson")
-    run_tmv(exe, ["keys"], stdout_path=kpath)
+    toolkeys = e3.tool_keys(exe, wd)
+    write_ndjson(kpath, toolkeys)
     kc = e3.kernel_codes()
-    toolkeys = read_ndjson(kpath)
     for k in toolkeys:
         n = k["name"]
         if n not in kc and n[:1] == "K" and n[1:2].isdigit() and n[1:] in kc:
